@@ -225,7 +225,7 @@ PROPS["C06"] = {
 
 # ---------------------------------------------------------------- C08
 PROPS["C08"] = {
-    "level": "model_checking", "engine": "kani",
+    "level": "model_checking", "engine": "kani+mir-smt", "mir": True,
     "technique": "bounded model checking (Kani/CBMC): one incref/decref/create/remove step from an arbitrary pool state "
                  "satisfying the representation invariant (inductive step instead of histories); written images vs format",
     "claim": "From every pool state of the listed shapes whose reference counts are arbitrary u16 values satisfying "
